@@ -178,6 +178,28 @@ theorem basic_rfc7617_client (H : Str → Str) (nfc : Str → Str) (decode : Byt
   · rw [if_pos hc, if_pos ((checkpasswordDict_iff _ _ _).mpr hc)]
   · rw [if_neg hc, if_neg (fun h => hc ((checkpasswordDict_iff _ _ _).mp h))]
 
+/-- the driver's UTF-8 codec (core Lean's validating decoder) inverts its encoder on every text -/
+theorem fromUTF8_toByteArray (str : String) : String.fromUTF8? str.toByteArray = some str := by
+  unfold String.fromUTF8?
+  have h : str.toByteArray.IsValidUTF8 := str.isValidUTF8
+  simp [h, String.fromUTF8]
+
+theorem utf8_roundtrip (s : Str) : CpModel.AuthPrims.utf8Decode (CpModel.AuthPrims.utf8Encode s) = some s := by
+  unfold CpModel.AuthPrims.utf8Decode CpModel.AuthPrims.utf8Encode
+  have h0 : ByteArray.mk (String.ofList s).toUTF8.data.toList.toArray = (String.ofList s).toByteArray := by
+    simp
+  rw [h0, fromUTF8_toByteArray]
+  simp
+
+/-- **RFC 7617 client over UTF-8, concrete base64 and concrete UTF-8**: only NFC is left abstract -/
+theorem basic_rfc7617_client_utf8 (H : Str → Str) (nfc : Str → Str) (cfg : BasicCfg)
+    (hq : cfg.realm.contains '"' = false) (u p : Str) (hu : ':' ∉ u)
+    (hnfc : nfc (u ++ ':' :: p) = u ++ ':' :: p) :
+    basicAuth ⟨H, CpModel.AuthPrims.b64decode, CpModel.AuthPrims.utf8Decode, nfc⟩ cfg
+        (some (cs! "Basic " ++ CpModel.AuthPrims.b64encode (CpModel.AuthPrims.utf8Encode (u ++ ':' :: p)))) =
+      if dictGet u cfg.store = some p ∧ p ≠ [] then .grant u else .unauthorized (basicChallenge cfg) :=
+  basic_rfc7617_client H nfc _ _ cfg hq u p hu (utf8_roundtrip _) hnfc
+
 /-! ## Digest -/
 
 /-- `':'.join(parts)` -/
